@@ -37,13 +37,20 @@ MANIFEST = {
             "different ids under the explicit hypothesis that uuid5 separates the two strings (id_distinct_partial), random "
             "when none is present (id_random_when_none); generated contributing lists = STIX 2.1 part 6 lists. Source text "
             "(Props/C06Src.v): the shape of _generate_id, _make_json_serializable, the 2.1 __init__ guard, the hash chain and "
-            "the namespace constant, read from the ast on every run, are the ones the model transcribes.",
+            "the namespace constant, read from the ast on every run, are the ones the model transcribes; the source's hash "
+            "fallback is the repaired ByName variant (source_hash_fallback), so nested-order independence holds of the source "
+            "without side condition (source_id_order_indep_nested).",
     "design_ref": "DESIGN.md 6/C06",
     "note": "Model hand-written; tables regenerated from /repo by tr_scoid (fail closed); tied to /repo by a correspondence "
             "run each check over all 18 observable types + custom observables. Trusted: Coq kernel + vm_compute, tr_scoid, "
             "the C16 trusted base (canonicalizer model), Python's uuid.uuid5 (SHA-1; collision freedom is a hypothesis of "
             "id_distinct_partial, not an axiom), Spec/ScoIdSpec.v written from the standard. The model starts from the "
-            "cleaned property values (obj[key]); cleaning itself is C02's subject. No axioms.",
+            "cleaned property values (obj[key]); cleaning itself is C02's subject. id_input_injective measures 'different values' "
+            "with json_of = lit_deep (sort_deep .): numbers are compared by their canonical text, which is meaningful because "
+            "C16 proves that text against an independent reading of the number (es6_denotes / num_value_preserved) and that "
+            "sort_deep only reorders members (sort_deep_jperm). The 'serialization round trip' clause of the property has no "
+            "theorem: it is checked by the correspondence run only (serialize, drop id, parse: same id, every case). "
+            "Independence from the process (hash seed) and from process history are run-time checks as well. No axioms.",
     "technique": "Coq proof over a hand-written executable model + generated tables + correspondence run + independent oracle",
 }
 
